@@ -74,7 +74,7 @@ func ruleRowIndex(p *Prog, r *Result) {
 			if _, isC := constInt(ia.Index); !isC {
 				return
 			}
-			if !derivesFromNoElem(ia.X, isExecuteBatchResult) {
+			if !derivesFromNoElem(ia.X, isExecuteBatchResult) && !isColumnOfColumnList(fn, ia.X) {
 				return
 			}
 			n++
@@ -2249,4 +2249,48 @@ func ruleRegionSticky(p *Prog, r *Result) {
 		}
 	}
 	r.floor("region typestate obligations", n, 12)
+}
+
+// isColumnOfColumnList: v is an element loaded from a [][]any of a function that stores ExecuteBatch results into the
+// elements of a [][]any (the evaluated elements of a list literal: one operand column per element).
+func isColumnOfColumnList(fn *ssa.Function, v ssa.Value) bool {
+	ld, ok := v.(*ssa.UnOp)
+	if !ok || ld.Op != token.MUL {
+		return false
+	}
+	ea, ok := ld.X.(*ssa.IndexAddr)
+	if !ok {
+		return false
+	}
+	isColList := func(t types.Type) bool {
+		sl, ok := t.Underlying().(*types.Slice)
+		if !ok {
+			return false
+		}
+		in, ok := sl.Elem().Underlying().(*types.Slice)
+		if !ok {
+			return false
+		}
+		it, ok := in.Elem().Underlying().(*types.Interface)
+		return ok && it.Empty()
+	}
+	if !isColList(ea.X.Type()) {
+		return false
+	}
+	stores := false
+	allInstrs(fn, func(in ssa.Instruction) {
+		switch x := in.(type) {
+		case *ssa.Store:
+			if a, ok := x.Addr.(*ssa.IndexAddr); ok && isColList(a.X.Type()) && derivesFromNoElem(x.Val, isExecuteBatchResult) {
+				stores = true
+			}
+		case *ssa.Call:
+			if b, ok := x.Call.Value.(*ssa.Builtin); ok && b.Name() == "append" && len(x.Call.Args) == 2 && isColList(x.Call.Args[0].Type()) {
+				if mentions(x.Call.Args[1], isExecuteBatchResult, 6) {
+					stores = true
+				}
+			}
+		}
+	})
+	return stores
 }
